@@ -773,12 +773,12 @@ Inductive sx :=
 | SCall (n : str) (kw : list (str * sx))
 | STern (c t f : sx)
 | SParen (e : sx)                                           (* redundant (or required) parentheses *)
-| SArr (items : list (bool * sx))
-| SMap (entries : list (option mkey * sx))
+| SArr (items : list (bool * sx)) (trail : bool)             (* true = spread; trail: `[a, b,]` *)
+| SMap (entries : list (option mkey * sx)) (trail : bool)   (* None = spread; trail: `{k: v,}` *)
 | SComp (e : sx) (k : option str) (v : str) (target : sx) (cond : option sx).
 
-(* what the parser builds for a surface tree: parentheses vanish, `not in` / `is not` become
-   a negation, literal-only containers are folded *)
+(* what the parser builds for a surface tree: parentheses and trailing commas vanish, `not in` /
+   `is not` become a negation, literal-only containers are folded *)
 Fixpoint desugar (s : sx) : expr :=
   match s with
   | SConst c => EConst c
@@ -796,15 +796,23 @@ Fixpoint desugar (s : sx) : expr :=
   | SCall n kw => ECall n (map (fun p : str * sx => match p with (k, v) => (k, desugar v) end) kw)
   | STern c t f => ETern (desugar c) (desugar t) (desugar f)
   | SParen e => desugar e
-  | SArr items => fold_array (map (fun it : bool * sx => match it with (b, v) => (b, desugar v) end) items)
-  | SMap es => fold_map (map (fun en : option mkey * sx => match en with (k, v) => (k, desugar v) end) es)
+  | SArr items _ => fold_array (map (fun it : bool * sx => match it with (b, v) => (b, desugar v) end) items)
+  | SMap es _ => fold_map (map (fun en : option mkey * sx => match en with (k, v) => (k, desugar v) end) es)
   | SComp e k v target cond => EComp (desugar e) k v (desugar target) (option_map desugar cond)
   end.
 
-(* the surface tree without sugar and without parentheses of an AST (scalar constants only) *)
+(* a folded (literal-only) container constant written out as the literal it was folded from *)
+Fixpoint cembed (c : const) : sx :=
+  match c with
+  | CArr l => SArr (map (fun x : const => (false, cembed x)) l) false
+  | CMap m => SMap (map (fun kv : mkey * const => match kv with (k, x) => (Some k, cembed x) end) m) false
+  | _ => SConst c
+  end.
+
+(* the surface tree without sugar and without parentheses of an AST *)
 Fixpoint embed (e : expr) : sx :=
   match e with
-  | EConst c => SConst c
+  | EConst c => cembed c
   | EVar x => SVar x
   | EAttr e a opt => SAttr (embed e) a opt
   | EItem e i opt => SItem (embed e) (embed i) opt
@@ -815,8 +823,8 @@ Fixpoint embed (e : expr) : sx :=
   | EFilter e n kw => SFilter (embed e) n (map (fun p : str * expr => match p with (k, v) => (k, embed v) end) kw)
   | ECall n kw => SCall n (map (fun p : str * expr => match p with (k, v) => (k, embed v) end) kw)
   | ETern c t f => STern (embed c) (embed t) (embed f)
-  | EArr items => SArr (map (fun it : bool * expr => match it with (b, v) => (b, embed v) end) items)
-  | EMap es => SMap (map (fun en : option mkey * expr => match en with (k, v) => (k, embed v) end) es)
+  | EArr items => SArr (map (fun it : bool * expr => match it with (b, v) => (b, embed v) end) items) false
+  | EMap es => SMap (map (fun en : option mkey * expr => match en with (k, v) => (k, embed v) end) es) false
   | EComp e k v target cond => SComp (embed e) k v (embed target) (option_map embed cond)
   end.
 
@@ -898,14 +906,15 @@ Fixpoint raw (s : sx) : list token :=
   | STern c t f =>
       wrap (S lvl_tern) (lvl t) (raw t) ++ TIdent (s2l "if") :: raw c ++ TIdent (s2l "else") :: raw f
   | SParen e => paren (raw e)
-  | SArr items =>
-      TLBracket :: sep_by TComma (map (fun it : bool * sx => match it with (b, v) => (if b then [TSpread] else []) ++ raw v end) items) ++ [TRBracket]
-  | SMap es =>
+  | SArr items trail =>
+      TLBracket :: sep_by TComma (map (fun it : bool * sx => match it with (b, v) => (if b then [TSpread] else []) ++ raw v end) items)
+        ++ (if trail then [TComma] else []) ++ [TRBracket]
+  | SMap es trail =>
       TLBrace :: sep_by TComma (map (fun en : option mkey * sx =>
                                      match en with
                                      | (Some k, v) => tok_mkey k :: TColon :: raw v
                                      | (None, v) => TSpread :: raw v
-                                     end) es) ++ [TRBrace]
+                                     end) es) ++ (if trail then [TComma] else []) ++ [TRBrace]
   | SComp e k v target cond =>
       TLBracket :: raw e ++ TIdent (s2l "for") ::
       match k with Some k => [TIdent k; TComma; TIdent v] | None => [TIdent v] end ++
